@@ -338,7 +338,7 @@ theorem addrFormL_index (c : Model.X86.Ctx) (ctx : Spec.X86.Ctx) (rb rx : BitVec
     have h3 : (xbOf rb rx).getLsbD 3 = rb.getLsbD 3 := by simp only [xbOf]; bv_decide
     have h4 : (xbOf rb rx).getLsbD 4 = rx.getLsbD 3 := by simp only [xbOf]; bv_decide
     rw [h3, h4] at F
-    exact idxParts_checkMem ctx rule p o7 rb rx 0#32 size sh d hm64 ho hb hx hx4 hsh (by decide) seg a32 _ h67 F (by simp [hvk])
+    exact idxParts_checkMem ctx rule p o7 rb rx 0#32 size sh d hm64 ho hb hx hx4 hsh (by decide) seg a32 0 _ h67 F (by simp [hvk])
   · intro opcode opReg imm n ho hopc
     exact emitX86M_index_bytes c opcode opReg rb rx size sh d imm n seg a32 hm ho hb hx hx4 hopc
 
